@@ -71,8 +71,6 @@ def environments():
     return E
 
 
-# environments in which the module under test carries an OID (predicate of finding C11-duptype-with-oid-accepted)
-OID_ENVS = {"hdr-unknown-oid", "oid-alone", "oid2-warning-in-faulty", "oid2-warning-after", "stdclash", "stdclash-after"}
 
 DIAG_OK = re.compile(r"^(Compiled|Copied|Generated|Symlinked) ")
 
@@ -142,6 +140,11 @@ def pick_faults(base, rng, tier):
             if not any(tree[mj][f] for mj in majors for f in tree[mj]):
                 break
         picked += got
+    # directed: a type assigned twice is among the faults of EVERY run (the fault that a module OID hid from the fixer:
+    # C11-duptype-with-oid-accepted, repaired; the environments oid-alone, hdr-unknown-oid, oid2-*, stdclash* give the OID)
+    if not any(b[3]["classes"] == ["duptype"] for b in picked):
+        cand = [b for b in base if b[3]["classes"] == ["duptype"] and b[2]["model"].split(":")[0] == "REJECT"]
+        picked += cand[:1]
     return picked
 
 
@@ -192,14 +195,6 @@ def run_layer(run, rng, tier, model, asn1c, skel, scratch_dir, ncpu, run_lines, 
                "asn1c": r, "plain_run": {k: w["base"][k] for k in ("rc", "classes", "nfiles")},
                "replay_cmd": "write the files into an empty directory; %s; echo $?; ls *.c *.h" % cmdline}
         text = "\n".join("-- file %s\n%s" % (fn, t) for fn, t in w["files"])
-        # ---- recorded finding: a type defined twice in a module that HAS an OID is not diagnosed by the fixer
-        if (w["env"] in OID_ENVS and w["base"]["classes"] == ["duptype"]
-                and (r["rc"] == 0 or (w["werror"] and haswarn and r["rc"] == 65 and r["nfatal"] == 0))):
-            fid = "C11-duptype-with-oid-accepted"
-            if any(fd["id"] == fid for fd in run.findings):
-                run.known_finding(fid, w["label"])
-                run.count("known:" + fid)
-                continue
         # ---- oracle
         bad = None
         if r["rc"] < 0:
